@@ -122,6 +122,7 @@ struct RegistryT<
 	HFSM2_CONSTEXPR(14)	bool  isActive				(const StateID stateId)	  const noexcept;
 	HFSM2_CONSTEXPR(14)	bool  isResumable			(const StateID stateId)	  const noexcept;
 
+	HFSM2_CONSTEXPR(14)	bool  isPendingActive		(const StateID stateId)	  const noexcept;
 	HFSM2_CONSTEXPR(14)	bool  isPendingEnter		(const StateID stateId)	  const noexcept;
 	HFSM2_CONSTEXPR(14)	bool  isPendingChange		(const StateID stateId)	  const noexcept;
 	HFSM2_CONSTEXPR(14)	bool  isPendingExit			(const StateID stateId)	  const noexcept;
